@@ -14,6 +14,7 @@ type Pin struct {
 	Keys  map[string][2]uint64 `json:"keys"`
 	Avoid []uint64             `json:"avoid"`
 	Seed  uint64               `json:"seed"`
+	All   []uint64             `json:"all"`
 }
 
 var curPin *Pin
